@@ -53,10 +53,14 @@ VX_MODES = FieldSet(
 # A second, different simple set: used to build stores with *differing* field sets.
 VX_OTHER = FieldSet('vx_other', o_p=FM(TP), o_s=FM(T, np.int32))
 
+# the FIRST per-point field of this set is optional
+VX_OPTFIRST = FieldSet('vx_optfirst', q_opt=FM(TP, np.float64, required=False),
+                       q_req=FM(TP, np.float32), q_s=FM(T, np.int32, required=False))
+
 # same field NAMES as vx_other, different definitions
 VX_OTHER2 = FieldSet('vx_other2', o_p=FM(T, str), o_s=FM(TP, np.float64))
 
-ALL = {'vx_other2': VX_OTHER2, 'vx_simple': VX_SIMPLE, 'vx_species': VX_SPECIES, 'vx_modes': VX_MODES,
+ALL = {'vx_other2': VX_OTHER2, 'vx_optfirst': VX_OPTFIRST, 'vx_simple': VX_SIMPLE, 'vx_species': VX_SPECIES, 'vx_modes': VX_MODES,
        'vx_other': VX_OTHER}
 
 SPECIES = list(Species)
@@ -95,7 +99,23 @@ def _scalar(rng, ft, hostile: bool):
 
 def _array(rng, ft, n, hostile: bool):
     vals = [_scalar(rng, ft, hostile) for _ in range(n)]
-    return np.array(vals, dtype=ft)
+    a = np.array(vals, dtype=ft)
+    if hostile and ft is not str and rng.random() < 0.3:
+        # the same values handed over as a non-contiguous view (column of a table, every
+        # second element, reversed buffer): a caller's array need not be contiguous
+        kind = rng.choice(['column', 'stride', 'reversed'])
+        if kind == 'column':
+            table = np.zeros((n, 3), dtype=ft)
+            table[:, 1] = a
+            table[:, 0] = a[::-1]
+            return table[:, 1]
+        if kind == 'stride':
+            buf = np.zeros(2 * n, dtype=ft)
+            buf[::2] = a
+            buf[1::2] = a[::-1]
+            return buf[::2]
+        return np.ascontiguousarray(a[::-1])[::-1]
+    return a
 
 
 def _tmv(rng, ft, hostile):
